@@ -53,22 +53,46 @@ func Ident(r opencdc.Record) (src string, idx int, dlq bool, extra string) {
 		if md, ok := sd["metadata"]; ok {
 			switch m := md.(type) {
 			case map[string]string:
-				s, i := splitID(m[MetaID])
-				return s, i, true, m["verif.piece"]
+				if s, i := splitID(m[MetaID]); i >= 0 || m[MetaID] != "" {
+					return s, i, true, m["verif.piece"]
+				}
 			case opencdc.Metadata:
-				s, i := splitID(m[MetaID])
-				return s, i, true, m["verif.piece"]
+				if s, i := splitID(m[MetaID]); i >= 0 || m[MetaID] != "" {
+					return s, i, true, m["verif.piece"]
+				}
 			case opencdc.StructuredData:
 				id, _ := m[MetaID].(string)
-				s, i := splitID(id)
-				pc, _ := m["verif.piece"].(string)
-				return s, i, true, pc
+				if s, i := splitID(id); i >= 0 || id != "" {
+					pc, _ := m["verif.piece"].(string)
+					return s, i, true, pc
+				}
 			case map[string]any:
 				id, _ := m[MetaID].(string)
-				s, i := splitID(id)
-				pc, _ := m["verif.piece"].(string)
-				return s, i, true, pc
+				if s, i := splitID(id); i >= 0 || id != "" {
+					pc, _ := m["verif.piece"].(string)
+					return s, i, true, pc
+				}
 			}
+		}
+	}
+	// a bare record (SourceScript.Bare: no metadata, no payload) is recognised by its key, also inside a DLQ record
+	if k, ok := r.Key.(opencdc.RawData); ok && r.Metadata[MetaID] == "" {
+		if s, i := splitID(string(k)); i >= 0 {
+			return s, i, false, ""
+		}
+	}
+	if sd, ok := r.Payload.After.(opencdc.StructuredData); ok {
+		var key string
+		switch k := sd["key"].(type) {
+		case opencdc.RawData:
+			key = string(k)
+		case []byte:
+			key = string(k)
+		case string:
+			key = k
+		}
+		if s, i := splitID(key); i >= 0 {
+			return s, i, true, ""
 		}
 	}
 	return fmt.Sprintf("?after=%T:%v", r.Payload.After, r.Payload.After), -2, false, ""
@@ -105,6 +129,9 @@ type SourceScript struct {
 	Faults      bool
 	// PositionOf overrides the position bytes of a record (C09 shapes: empty / duplicate positions).
 	PositionOf func(i int) opencdc.Position
+	// Bare lists record indices that the plugin emits with nothing but a position and a key: no metadata, no payload
+	// (a legal, minimal record).
+	Bare []int
 	// NoMatch lists record indices carrying metadata verif.match=n (all others y): processor conditions
 	// `{{ eq (index .Metadata "verif.match") "y" }}` then skip exactly those records.
 	NoMatch []int
@@ -149,6 +176,11 @@ func (s *Source) Record(i int) opencdc.Record {
 	for _, n := range s.S.NoMatch {
 		if n == i {
 			match = "n"
+		}
+	}
+	for _, n := range s.S.Bare {
+		if n == i {
+			return opencdc.Record{Position: s.pos(i), Operation: opencdc.OperationCreate, Key: opencdc.RawData(s.S.Name + ":" + strconv.Itoa(i))}
 		}
 	}
 	return opencdc.Record{
